@@ -195,6 +195,49 @@ def exclusion_check(ctx, ptoks, etoks, idx, glob_mode):
     ctx.mark_nontrivial(('ex', pat, epat, glob_mode))
 
 
+def walker_exclusion_check(ctx, root):
+    """The file-system walker applies exclusions with dot-matching forced, however they are given (exclude=, inline `!`, pathlib)."""
+    incs = ['.*', '**/.*', '*/.*', '.h*', '.*/*', 'd/.*', '**', '*', '.hd/.*', 'd/**/.*']
+    excs = ['*', '?*', '[!a]*', '**', '*/*', '*.', '.h', '*/', '**/*d', '@(*)', '!(a)', '**/.*', '*/.*', '.*', '[.]*', '**/?y', 'd/*', '**/']
+    base = G.EXTGLOB | G.GLOBSTAR
+    idx = 0
+    for ip in incs:
+        for ep in excs:
+            idx += 1
+            if not ctx.mine(idx):
+                continue
+            wit = {'pattern': ip, 'exclude': ep, 'tree': TREE, 'mode': 'walker-exclusion'}
+            try:
+                alone = G.glob(ip, flags=base, root_dir=root)
+                exm = G.compile(ep, flags=base | G.DOTGLOB)
+                want = sorted(r for r in alone
+                              if not exm.match(r if r.endswith('/') or not os.path.isdir(os.path.join(root, r)) else r + '/'))
+                calls = [
+                    ('glob(exclude=)', lambda: G.glob(ip, flags=base, root_dir=root, exclude=ep)),
+                    ('glob(exclude=[..])', lambda: G.glob([ip], flags=base, root_dir=root, exclude=[ep])),
+                    ('iglob(exclude=)', lambda: list(G.iglob(ip, flags=base, root_dir=root, exclude=ep))),
+                    ('glob(inline !)', lambda: G.glob([ip, '!' + ep], flags=base | G.NEGATE, root_dir=root)),
+                    ('glob(inline -)', lambda: G.glob([ip, '-' + ep], flags=base | G.NEGATE | G.MINUSNEGATE, root_dir=root)),
+                    ('glob(bytes, exclude=)', lambda: [os.fsdecode(x) for x in G.glob(os.fsencode(ip), flags=base, root_dir=os.fsencode(root), exclude=os.fsencode(ep))]),
+                    ('Path.glob(exclude=)', lambda: [str(x.relative_to(root)) + ('/' if ip.endswith('/') else '') for x in WP.Path(root).glob(ip, flags=base, exclude=ep)]),
+                ]
+                for api, fn in calls:
+                    got = sorted(fn())
+                    ctx.evals()
+                    ctx.count('walker_exclusion_checks')
+                    if api.startswith('Path'):
+                        ok = sorted(x.rstrip('/') for x in got) == sorted(x.rstrip('/') for x in want)
+                    else:
+                        ok = got == want
+                    if not ok:
+                        ctx.disagree(f'walker exclusion ({api}) is not evaluated with dot-matching forced',
+                                     dict(wit, api=api, expected=want[:12], observed=got[:12], inclusion_alone=sorted(alone)[:12]))
+                        break
+            except Exception as e:  # noqa: BLE001
+                ctx.disagree(f'walker with exclusion raised {type(e).__name__}', dict(wit, exception=repr(e)[:200]))
+    ctx.mark_nontrivial('walker-exclusion')
+
+
 # ---- real trees ---------------------------------------------------------------------------------
 TREE = ['a', 'b', '.h', '.hd/', '.hd/x', '.hd/.y', 'd/', 'd/a', 'd/.h', 'd/.hd/', 'd/.hd/z', 'd/e/', 'd/e/.k', 'd/e/f', '.a.', '..a']
 
@@ -267,6 +310,7 @@ def run(ctx):
     try:
         if ctx.shard == 0:
             wcmatch_tree_check(ctx, root, 0)
+        walker_exclusion_check(ctx, root)
         for n in (1, 2):
             for toks in gen.enum_sequences(pool, n):
                 idx += 1
@@ -380,7 +424,9 @@ def replay(ctx, w):
     try:
         api = w.get('api')
         fl = tuple(f for f in w.get('flags', ()) if f != 'EXTGLOB')
-        if api == 'fnmatch':
+        if w.get('mode') == 'walker-exclusion':
+            walker_exclusion_check(ctx, root)
+        elif api == 'fnmatch':
             fn_check(ctx, w['ast'], tuple(w['flags']), 0)
         elif api in ('globmatch', 'PurePath.match'):
             gl_check(ctx, w['ast'], fl, 0, pathlib_too=True)
